@@ -156,9 +156,21 @@ def make_frame(pe, pd, structs, rows, seed):
             continue
         cname = "%s%d" % (t, ci)
         cells = []
+        dup = (seed + ci) % 3 == 0          # rows holding the SAME data but different tag / flag / replica means
         for r in range(rows):
-            s2 = dict(s, seed=s["seed"] + 100 * r)
-            cells.append(gen.build(s2))
+            s2 = dict(s, seed=s["seed"] + (0 if dup else 100 * r))
+            cell = gen.build(s2)
+            if dup and r > 0:
+                for o in gen.all_obs(cell):
+                    o.tag = "row%d" % r
+                    if t == "obs":
+                        o.reweighted = not o.reweighted
+                        for n_ in o.r_values:
+                            o.r_values[n_] = o.r_values[n_] * (1 + 1e-6 * r)
+                            break
+                if t == "corr":
+                    cell.tag = "corr row%d" % r
+            cells.append(cell)
         cols[cname] = cells
         model["columns"].append(cname)
         for r in range(rows):
